@@ -150,6 +150,19 @@ def tab_idx(run):
                     rng = (a, b) if rng is None or b > rng[1] else rng
         run.check(rng == (0, cap + 1), R, R + "|probe-all-lengths", qp.loc(), "query_prefixed probes every prefix length 0..=%d" % cap,
                   "query_prefixed iterates %s, expected 0..%d: rules indexed under some prefix length would never be found" % (rng, cap + 1))
+    # (5b) every bucket that was found is kept: the only writes into the result array are the hits of the map lookup
+    bad_w = []
+    nw = 0
+    for bi, si, st in qp.stmts():
+        if st["k"] == "assign" and st["place"]["p"] and any(isinstance(p_, dict) and ("idx" in p_ or "cidx" in p_) for p_ in st["place"]["p"]) \
+                and "RuledefMapEntry" in qp.local_ty(st["place"]["l"]):
+            nw += 1
+            o = qp.origin_op(st["rv"]["op"]) if st["rv"]["k"] in ("use", "cast") else ("other",)
+            d = describe_origin(qp, o)
+            if not ("HashMap" in d and "get" in d):
+                bad_w.append((st["span"]["line"], d))
+    run.check(nw >= 1 and not bad_w, R, R + "|buckets-kept", qp.loc(), "query_prefixed only ever stores map hits into its result (%d store site(s)): no bucket is dropped" % nw,
+              "query_prefixed overwrites result buckets with something other than a map hit (line %s): candidates of some prefix length would be dropped, so the index is no longer a superset of the full scan" % [x[0] for x in bad_w])
     # (4) reader and pattern parser admit tokens by the same predicate
     for g, role in ((rd, "index reader"), (pr, "rule pattern parser")):
         ok = any(n.endswith("TokenKind::is_allowed_pattern_token") for _, n in callee_names(g))
